@@ -364,6 +364,16 @@ func checkC01(c *Ctx) {
 	// O8: the registry passes visit every shard and every scope
 	c.checkRegistryPassCoverage("O8 registry-coverage", "Report", "report")
 	c.checkRegistryPassCoverage("O8 registry-coverage", "CachedReport", "cachedReport")
+	// every bucket of a histogram is visited by both histogram passes
+	c.checkHistogramBucketCoverage("O7 bucket-coverage")
+	// O12 (shared with C04 O4): "delivered under that counter's name and tags" - the tags a scope's
+	// counters are delivered with are the scope's private copy; a map the caller keeps writing to would
+	// move earlier increments under tags the counter never had
+	if merge, copySan := c.fn("", "", "mergeRightTags"), c.fn("", "scope", "copyAndSanitizeMap"); merge != nil && copySan != nil {
+		c.checkTagsIngress("O12 own-tags", merge, copySan)
+	} else {
+		c.missing("O12 own-tags", "tally.mergeRightTags / scope.copyAndSanitizeMap")
+	}
 }
 
 // checkDeltaShape checks shape S1 of a function that writes counter.prev.
